@@ -303,7 +303,15 @@ def gen_scene(rng, multi, allow_fail=True):
                          [float(round(st[0])), float(round(st[1]))]
                 feats.append(dict(frame=fno, cell=cell, true=[r3(tc[0]), r3(tc[1])], start=[r3(st[0]), r3(st[1])],
                                   kind=kind, nan=(kind == "nan" and m == 0)))
-    return dict(fitfun=fitfun, multi=bool(multi), nframes=(max(fnos) + 1 if multi else 1), feats=feats,
+    # a completely dark (all-zero) frame with features listed in it: their fits cannot succeed, the call
+    # must survive it (rows keep their values, cost NaN) and the other frames must be unaffected
+    dark = None
+    if allow_fail and rng.random() < (0.15 if multi else 0.04):
+        dark = rng.choice(fnos)
+        for f in feats:
+            if f["frame"] == dark:
+                f["kind"], f["nan"] = "dark", False
+    return dict(fitfun=fitfun, multi=bool(multi), nframes=(max(fnos) + 1 if multi else 1), feats=feats, dark_frame=dark,
                 bg=rng.choice([0, 10]), order=rng.choice(ORDERS) if multi else rng.choice(["asc", "interleaved"]),
                 index=rng.choice(INDEXES) if multi else rng.choice(["range", "shuffled", "str", "dup"]),
                 oseed=rng.randrange(10 ** 6), extra_cols=rng.random() < 0.5,
@@ -1124,7 +1132,9 @@ def build_scene(ls, scene):
     for fno in range(scene["nframes"]):
         centres = [f["true"] for f in feats if f["frame"] == fno and f["kind"] != "out"] if scene["multi"] else \
                   [f["true"] for f in feats if f["kind"] != "out"]
-        if centres or not scene["multi"]:
+        if scene.get("dark_frame") is not None and fno == scene["dark_frame"]:
+            images.append(np.zeros(SC_SHAPE))
+        elif centres or not scene["multi"]:
             images.append(draw(ls, SC_SHAPE, centres, fitfun, size, 200.0, scene_extra(fitfun), float(scene["bg"])))
         else:
             images.append(np.full(SC_SHAPE, 5.0 + fno))
@@ -1406,8 +1416,8 @@ def run_frames(ctx, inp, res):
     res.stat("frames_order_" + scene["order"])
     res.stat("frames_index_" + scene["index"])
     res.stat("frames_features", len(t))
-    for opt in ("colorder", "signal_int", "all_int", "img_f32"):
-        if scene.get(opt):
+    for opt in ("colorder", "signal_int", "all_int", "img_f32", "dark_frame"):
+        if scene.get(opt) not in (None, False):
             res.stat("frames_scene_" + opt)
     res.stat("frames_nframes_%d" % len(set(fr)))
     if not grouped:
